@@ -1220,6 +1220,69 @@ func (p *Prog) freshSlice1(v ssa.Value, seen map[ssa.Value]bool) bool {
 		return true
 	case *ssa.Const:
 		return x.Value == nil // nil slice: append allocates
+	case *ssa.UnOp:
+		// load of a slice-typed field of an object allocated by this activation, every store to which (in this
+		// function, through that object) stores a fresh slice
+		fa, ok := x.X.(*ssa.FieldAddr)
+		if !ok || x.Op != token.MUL {
+			return false
+		}
+		base, isAlloc := fa.X.(*ssa.Alloc)
+		if !isAlloc || base.Referrers() == nil {
+			return false
+		}
+		before := func(a, b ssa.Instruction) bool { // a is executed before b on every path reaching b
+			if a.Block() == b.Block() {
+				for _, ins := range a.Block().Instrs {
+					if ins == a {
+						return true
+					}
+					if ins == b {
+						return false
+					}
+				}
+			}
+			return a.Block().Dominates(b.Block())
+		}
+		var fieldStores, wholeStores []*ssa.Store
+		for _, r := range *base.Referrers() {
+			switch y := r.(type) {
+			case *ssa.FieldAddr:
+				if y.Field != fa.Field || y.Referrers() == nil {
+					continue
+				}
+				for _, r2 := range *y.Referrers() {
+					if st, isStore := r2.(*ssa.Store); isStore && st.Addr == ssa.Value(y) {
+						if !p.freshSlice1(st.Val, seen) {
+							return false
+						}
+						fieldStores = append(fieldStores, st)
+					}
+				}
+			case *ssa.Store:
+				if y.Addr == ssa.Value(base) {
+					wholeStores = append(wholeStores, y) // copy of another object: its slices are shared until reassigned
+				}
+			}
+		}
+		if len(wholeStores) == 0 {
+			return true // zero-initialised (nil) or assigned fresh slices only
+		}
+		for _, fs := range fieldStores {
+			if !before(fs, x) {
+				continue
+			}
+			ok := true
+			for _, w := range wholeStores {
+				if !before(w, fs) {
+					ok = false
+				}
+			}
+			if ok {
+				return true
+			}
+		}
+		return false
 	}
 	return false
 }
